@@ -10,7 +10,7 @@ from ..sbe import PRIMS
 from ..views import V
 
 SERVES = {"C03", "C04", "C05", "C10", "C11", "C12", "C19"}
-QUICK_PAIRS = ["b16_n16", "b32_n8", "b32_n32", "b8_n64", "b64_n16"]
+QUICK_PAIRS = ["b16_n16", "b32_n8", "b64_n16"]
 ALL_PAIRS = ["b%d_n%d" % (b, n) for b in (8, 16, 32, 64) for n in (8, 16, 32, 64)]
 GH = [("unsigned long", "sbv_n")]
 UT = {8: "unsigned char", 16: "unsigned short", 32: "unsigned int", 64: "unsigned long"}
@@ -159,7 +159,7 @@ def contracts(tier):
             p, rec, vw = group_view(f)
             BL, N = wire(vw)
             ew = V(u, "RET", retrec(f))
-            where = "%s + %d" % (vw.begin, HDR) if nm == "front" else "%s + %d + ((unsigned long)%s - 1) * (unsigned long)%s" % (vw.begin, HDR, N, BL)
+            where = "%s + %d" % (vw.begin, HDR) if nm == "front" else "%s + %d + (unsigned long)%s * (unsigned long)%s - (unsigned long)%s" % (vw.begin, HDR, N, BL, BL)  # (N-1)*BL written as N*BL-BL: same value, no distributivity for the solver
             epost = [("entry-position", "%s == %s" % (ew.begin, where)), ("entry-carries-wire-blockLength", "%s == %s" % (ew.block_length(), BL)), ("keeps-end", "%s == %s" % (ew.end, vw.end))]
             add(f, "flat_group::" + nm, [OBJ(p, rec)] + vw.wf() + nowrap(BL, N), [("header-in-bounds-or-reported", "%d <= sbv_n" % HDR), ("non-empty-or-reported", "%s != 0" % N)] + epost,
                 props={"C12", "C03", "C10", "C11"}, backends=PRODUCT_BACKENDS)
@@ -357,9 +357,29 @@ def contracts(tier):
         f = u.target("r_n_entry_size_" + P)
         erec = crec(u, f, 0)
         ev = V(u, "(*self)", erec)
-        es = lambda b, bl: "((unsigned long)%s + 4 + SPEC_LOAD(%s + %s + 2, 2, 0) * SPEC_LOAD(%s + %s, 2, 0))" % (bl, b, bl, b, bl)
-        add(f, "entry::size_bytes (generated, block + inner group)", [OBJ("self", erec)] + ev.wf(),
-            [("inner-header-in-bounds-or-reported", "(unsigned long)%s + 4 <= sbv_n" % ev.block_length()), ("wire-block-plus-inner-group", "RET == %s" % es(ev.begin, ev.block_length()))], props={"C05", "C03", "C10", "C11"}, backends=PRODUCT_BACKENDS)
+        es = lambda b, bl: "((unsigned long)%s + 1 + SPEC_LOAD(%s + %s, 1, 0))" % (bl, b, bl)
+        add(f, "entry::size_bytes (generated, block + data member)", [OBJ("self", erec)] + ev.wf(),
+            [("data-prefix-in-bounds-or-reported", "(unsigned long)%s + 1 <= sbv_n" % ev.block_length()), ("wire-block-plus-data-member", "RET == %s" % es(ev.begin, ev.block_length()))], props={"C05", "C03", "C10", "C11"})
+        # nested size_bytes: entry loop closed by a loop contract (iterator pointer tracks the accumulated size); unbounded in numInGroup
+        f = u.target("r_n_size_bytes_" + P)
+        p, rec, vw = group_view(f)
+        BL, N = wire(vw)
+        firec0 = None
+        for r in u.recs.values():
+            if r["qual"] == "sbepp::detail::forward_iterator" and ("g_" in r["pretty"]) and r["cname"] in u.text[u.text.index(f.mangled):u.text.index(f.mangled) + 200000][:0] + r["cname"]:
+                pass
+        # iterator record of this instantiation: return type of begin()
+        fb = u.target("r_n_begin_" + P)
+        firec0 = retrec(fb)
+        itn = ItV(u, "__begin0", firec0, "fw")
+        ite = ItV(u, "__end0", firec0, "fw")
+        inv = ["%s <= %s" % (itn.index, ite.index), "%s == %s" % (ite.index, N), "%s == %s && %s == %s" % (itn.bl, BL, itn.end, vw.end),
+               "__CPROVER_same_object(%s, %s)" % (itn.ptr, vw.begin), "__CPROVER_POINTER_OFFSET(%s) == (long)size" % itn.ptr, "%d <= size && size <= sbv_n" % HDR]
+        lp = Loop(assigns=["__begin0", "size"], invariants=inv, decreases="(unsigned long)%s - (unsigned long)%s" % (ite.index, itn.index))
+        add(f, "nested_group::size_bytes", [OBJ(p, rec)] + vw.wf(),
+            [("header-in-bounds-or-reported", "%d <= sbv_n" % HDR), ("size-inside-buffer-or-reported", "RET <= sbv_n"), ("at-least-header", "RET >= %d" % HDR),
+             ("empty-group-is-header-only", "SPEC_IMPLIES(%s == 0, RET == %d)" % (N, HDR))],
+            props={"C05", "C10", "C11", "C06"}, loops={0: lp}, backends=PRODUCT_BACKENDS)
         # forward iterator
         f = u.target("r_fi_deref_" + P)
         firec = crec(u, f, 0)
